@@ -74,17 +74,22 @@ def run(ctx):
     RL.check_singleton_lock(ctx, 'R7.7')
     # the accepted None / bounds sites (ACCEPTED_NULL, ACCEPTED_BOUNDS) are argued from what the navigation helpers return
     # ("the group ends with its closing token", "token_prev(len) is the last child"): validate those helpers against the model
+    from .. import rules_filters as RF
+    ctx.rule('R7.8', 'a filter that keeps the previous statement uses only str() of it (its token list may be a spent generator)', floor=1)
+    RF.check_retained_statement(ctx, 'R7.8')
+    ctx.rule('R7.9', 'a fixed-length table is not indexed with an unbounded run-time quantity', floor=1)
+    RF.check_fixed_tables(ctx, 'R7.9', reach)
     from .. import rules_base as RB
     ctx.rule('R7.B', 'base model: the navigation helpers and token predicates return what the accepted-site arguments assume', floor=1)
     RB.check_base_model(ctx, 'R7.B', parts=('contains', 'flags', 'match', 'imt', 'nav'))
     # R7.6
     before = len(ctx.obs)
-    for r in ('R15.1', 'R15.2', 'R15.3', 'R15.4', 'R15.5', 'R15.6', 'R15.7'):
+    for r in ('R15.1', 'R15.2', 'R15.3', 'R15.4', 'R15.5', 'R15.6', 'R15.7', 'R15.8'):
         ctx.rule(r, '', floor=0)
     c15.run(ctx)
     for o in ctx.obs[before:]:
         o.rule = 'R7.6'
-    for r in ('R15.1', 'R15.2', 'R15.3', 'R15.4', 'R15.5', 'R15.6', 'R15.7'):
+    for r in ('R15.1', 'R15.2', 'R15.3', 'R15.4', 'R15.5', 'R15.6', 'R15.7', 'R15.8'):
         ctx.rules.pop(r, None)
         ctx.floors.pop(r, None)
 
